@@ -5,6 +5,8 @@ mod dec;
 mod farm;
 mod gen;
 mod p_builders;
+mod p_generics;
+mod p_negative;
 mod p_values;
 mod props;
 
